@@ -8,7 +8,7 @@ from __future__ import annotations
 
 import itertools
 
-from .. import common
+from .. import common, loaders
 from ..common import enc_bools, enc_list, enc_optint
 
 RULE = ("every reducible/non-reducible layout up to length L x every (a,b) in [-L-2, L+2]^2 plus None, "
@@ -17,10 +17,8 @@ RULE = ("every reducible/non-reducible layout up to length L x every (a,b) in [-
         "(layout, clamped a, clamped b)")
 
 
-def mk(layout):
-    from lithium.testcases import TestcaseLine
-
-    t = TestcaseLine()
+def mk(layout, kind="line"):
+    t = loaders.new_testcase(kind)
     t.before, t.after = b"<", b">"
     t.parts = [bytes([65 + (i % 26)]) + (b"%d" % i if i >= 26 else b"") for i in range(len(layout))]
     t.reducible = list(layout)
@@ -50,13 +48,14 @@ def spec_delete(parts, red, a, b):
     return out_p, out_r
 
 
-def one_case(ctx, layout, a, b, do_model=True):
-    src = mk(layout)
+def one_case(ctx, layout, a, b, do_model=True, kind="line", src=None):
+    src = src if src is not None else mk(layout, kind)
+    layout = tuple(src.reducible)
     n = sum(1 for r in layout if r)
     a2, b2 = clamp_spec(a, n, 0), clamp_spec(b, n, n)
     if a2 > b2:
         return
-    case = dict(layout=enc_bools(layout), a=a, b=b)
+    case = dict(layout=enc_bools(layout), a=a, b=b, testcase_class=type(src).__name__)
     snap_p, snap_r = list(src.parts), list(src.reducible)
     ok = True
     try:
@@ -96,6 +95,36 @@ def one_case(ctx, layout, a, b, do_model=True):
         ctx.bump("below-minus-len")
     if (a is not None and a > n) or (b is not None and b > n):
         ctx.bump("above-len")
+
+
+def all_classes(ctx, L):
+    """the same claim for every testcase class (a subclass may override the index translation) and for testcases that come
+    out of the real loaders (markers, CR LF before the DDEND line, JS strings, tags): monitors only"""
+    for kind in ("char", "symbol", "jsstr", "attrs"):
+        for k in range(0, L + 1):
+            for layout in itertools.product((True, False), repeat=k):
+                vals = [None] + list(range(-k - 2, k + 3))
+                for a in vals:
+                    for b in vals:
+                        one_case(ctx, layout, a, b, do_model=False, kind=kind)
+    files = {"char": [b"h\r\n// DDBEGIN\r\nab;cd\r\n// DDEND\r\nt\r\n", b"// DDBEGIN\nxyz\n// DDEND\n", b"abcde"],
+             "line": [b"a\r\nb\r\nc\r\n", b"h\nDDBEGIN\na\nb\nDDEND\nt\n"],
+             "symbol": [b"f(a){b;c};g[1]=2;\n"],
+             "jsstr": [b"x = 'ab' + \"cd\\x41\";\ny = 'e';\n"],
+             "attrs": [b"<p a=1 b=\"2\" c>t<q d='3'>\n"]}
+    for kind, datas in files.items():
+        for data in datas:
+            res = loaders.real_load(kind, data)
+            if res[0] != "ok":
+                continue
+            t = res[1]
+            if len(t.parts) != len(t.reducible):
+                ctx.fail("flags", f"{kind}: the loaded testcase has {len(t.parts)} parts and {len(t.reducible)} flags", dict(splitter=kind, data=common.enc_bytes(data)))
+                continue
+            n = sum(1 for r in t.reducible if r)
+            for a in [None] + list(range(-n - 2, n + 3)):
+                for b in [None] + list(range(-n - 2, n + 3)):
+                    one_case(ctx, None, a, b, do_model=False, src=t)
 
 
 def sweep(ctx, L, do_model=True):
@@ -235,6 +264,7 @@ def run(ctx) -> int:
     proof = common.proof_stage(ctx.pid)
     L = 8 if ctx.thorough else 7
     sweep(ctx, L)
+    all_classes(ctx, 4 if ctx.thorough else 3)
     ctx.exhaustive.append(f"all layouts of length <= {L} x all (a,b) in [-len-2, len+2] u {{None}}")
     randoms(ctx, 60000 if ctx.thorough else 20000)
     chains(ctx, 5 if ctx.thorough else 4, 20000 if ctx.thorough else 4000)
